@@ -2,9 +2,15 @@
 the contract Idem) and CM.Args.C07_replaceArgs_idem_single (mechanism); search = second run over the program space."""
 from __future__ import annotations
 
+import json
+import random
+import shutil
+
 import argscorr
 import common
 import callshapes
+import e2e
+import impl
 import progspace
 
 LEAN_TARGETS = ["CM.Props.Lift", "CM.Props.C16"]
@@ -39,6 +45,38 @@ def corr(ctx):
             ctx.fail({"kind": "replace-args-not-idempotent"}, f"replace_args applied to its own output changes it again: {im['src']}", {"request": rq, "impl": im})
 
 
+def sast_case(case):
+    """a tool-result driven codemod run twice with the same result file: the findings still point at the (now fixed) code"""
+    item = case["item"]
+    rng = random.Random(case["seed"])
+    root = common.tmpdir("c07s")
+    try:
+        proj = root / "p"
+        pad = "" if case["pad"] == 0 else "import os\n" * 0
+        e2e.write_project(proj, {"code.py": pad + item["code"], "other.py": "x = 1\n"})
+        rf = root / "results.json"
+        rf.write_text(json.dumps(item["results"]))
+        args = ["--codemod-include", item["codemod"], item["flag"], str(rf)]
+        r1 = e2e.run(proj, args)
+        t1 = (proj / "code.py").read_bytes()
+        m1 = (proj / "code.py").stat().st_mtime_ns
+        r2 = e2e.run(proj, args)
+        t2 = (proj / "code.py").read_bytes()
+        m2 = (proj / "code.py").stat().st_mtime_ns
+        cs2 = [{"path": cs["path"], "diff": cs["diff"], "changes": len(cs["changes"])} for res in (r2["report"] or {}).get("results", []) for cs in res["changeset"]]
+        return {"rc": [r1["rc"], r2["rc"]], "changed1": t1.decode("utf-8", "replace") != item["code"], "same": t1 == t2, "rewritten": m1 != m2, "changesets2": cs2,
+                "after": t1.decode("utf-8", "replace"), "after2": t2.decode("utf-8", "replace")}
+    finally:
+        shutil.rmtree(root, ignore_errors=True)
+
+
+def shape_of(cid, name, before):
+    """coarse input class for known-findings signatures"""
+    if cid.endswith("flask-enable-csrf-protection") and "from flask_wtf import" in before:
+        return "class-imported-from-package-reexport"
+    return callshapes.shape_class(name)
+
+
 def search(ctx):
     res = progspace.run_pass(ctx.tier, ctx.seed)
     for cid, r in sorted(res.items()):
@@ -50,6 +88,24 @@ def search(ctx):
             if rec["failed"] or rec["failed2"]:
                 continue
             if rec["after2"] != rec["after"] or rec["changes2"] is not None:
-                ctx.fail({"kind": "second-run-changes", "codemod": cid, "wrote": rec["after2"] != rec["after"], "shape": callshapes.shape_class(name)},
+                ctx.fail({"kind": "second-run-changes", "codemod": cid, "wrote": rec["after2"] != rec["after"], "shape": shape_of(cid, name, rec["before"])},
                          f"{cid}: a second run on its own output {'modifies the file' if rec['after2'] != rec['after'] else 'reports a changeset'} (variant {name})",
                          {"codemod": cid, "program": name, "before": rec["before"], "after": rec["after"], "after2": rec["after2"], "changes2": rec["changes2"]})
+
+    # tool-result driven codemods: second run with the same result file
+    items = json.loads((common.VERIF / "harness" / "corpus" / "sast_seeds.json").read_text())
+    ctx.rng.shuffle(items)
+    cases = [{"item": it, "pad": 0, "seed": ctx.rng.randint(0, 10**9)} for it in items]
+    for c, r in zip(cases, impl.pool_map(sast_case, cases)):
+        if r[0] != "ok":
+            ctx.broke("c07 sast second-run harness", r[1]); continue
+        r = r[1]
+        cid = c["item"]["codemod"]
+        ctx.search_case("sast-second-run:" + cid, {"codemod": cid, "test": c["item"]["test"]}, r["changed1"])
+        if r["rc"] != [["exit", 0], ["exit", 0]]:
+            ctx.fail({"kind": "cli-crash", "codemod": cid}, f"CLI failed {r['rc']}", {"case": c})
+        elif not r["same"] or r["changesets2"] or r["rewritten"]:
+            what = "modifies the file" if not r["same"] else ("reports a changeset" if r["changesets2"] else "writes the file again")
+            ctx.fail({"kind": "second-run-changes", "codemod": cid, "wrote": not r["same"], "shape": "same-result-file"},
+                     f"{cid}: a second run with the same result file {what} (changesets {r['changesets2']})",
+                     {"codemod": cid, "item": c["item"], "after": r["after"], "after2": r["after2"], "changesets2": r["changesets2"]})
